@@ -101,6 +101,9 @@ class Verifier(ExprMixin, CallMixin, Engine):
                     raise Unsupported("bytearray.extend(non-bytes)")
                 new = VBytes(self.flat_concat(tgt.t, args[0].t), "bytearray")
             elif name == "reverse":
+                # ghost: the value before the reversal stays addressable in hints as <name>__before_reverse
+                if isinstance(call.func.value, ast.Name):
+                    p.ghost[call.func.value.id + "__before_reverse"] = VBytes(tgt.t, "bytes")
                 r = fresh(S, "rev")
                 k = z3.Int("k!rev")
                 n = z3.Length(tgt.t)
@@ -186,6 +189,9 @@ class Verifier(ExprMixin, CallMixin, Engine):
             return
         if isinstance(target, ast.Attribute):
             base = self.ev(target.value, p, module)
+            if isinstance(base, VOpt):
+                self.may_raise(p, base.isnone, "AttributeError", getattr(target, "lineno", 0))
+                base = base.val
             if isinstance(base, VObj):
                 if base.cls.frozen:
                     raise Raised(VExc("FrozenInstanceError", {}))
@@ -819,7 +825,11 @@ class Verifier(ExprMixin, CallMixin, Engine):
             env["result"] = val
             q = self.spec_path(p, env, old=p.old)
             for w, expr in c.witness.items():
-                env[w] = self.ev(parse_expr(expr), q, fi.module)
+                try:
+                    env[w] = self.ev(parse_expr(expr), q, fi.module)
+                except Unsupported:
+                    # the ghost is not bound on this path (e.g. the call it names did not happen): any value will do
+                    env[w] = self.fresh_of_type(c.witness_sorts.get(w, "bytes"), p, fi.module, name=w)
             # in postconditions a parameter name denotes the argument value (parameters are rebindable locals in Python);
             # objects are shared references, so their fields are read in the post-state
             for pn in p.old:
